@@ -244,9 +244,9 @@ func rServe(e *echo.Echo, cur *rObs, q rReq) {
 		switch {
 		case rec.Code == http.StatusNotFound:
 			cur.Kind = 'N'
-		case rec.Code == http.StatusMethodNotAllowed, rec.Code == http.StatusNoContent && rec.Header().Get("Allow") != "":
+		case rec.Code == http.StatusMethodNotAllowed, rec.Code == http.StatusNoContent && rec.Result().Header.Get("Allow") != "":
 			cur.Kind = 'M'
-			cur.Allow = splitAllow(rec.Header().Get("Allow"))
+			cur.Allow = splitAllow(rec.Result().Header.Get("Allow"))
 		default:
 			cur.Kind = '?'
 		}
@@ -425,7 +425,7 @@ func rMatchLiberal(toks []rTok, path string) bool {
 
 // ---------- generators ----------
 
-var rLits = []string{"a", "b", "ab", "abc", "users", "x.y", "a-b", "new", "v1"}
+var rLits = []string{"a", "b", "ab", "abc", "users", "x.y", "a-b", "new", "v1", "t{x}", "p|q"}
 var rParams = []string{":id", ":name", ":x", ":y"}
 
 // every method with its own slot in routeMethods (router.go: the eleven standard ones), custom methods of the
@@ -574,7 +574,7 @@ func rGenTable(r *rand.Rand, o rGenOpts) []rRoute {
 	return out
 }
 
-var rValues = []string{"", "a", "ab", "b", "a/b", "a:b", "%41", "\xc3\xa9", "users", "1", "x.y", "new", ":", "*", "abc/", "/", "..", "a/../b", ".", "x/..", "\x00", " ", "a\tb", "\x7f", "%00", "%2F", "+"}
+var rValues = []string{"", "a", "ab", "b", "a/b", "a:b", "%41", "\xc3\xa9", "users", "1", "x.y", "new", ":", "*", "abc/", "/", "..", "a/../b", ".", "x/..", "\x00", " ", "a\tb", "\x7f", "%00", "%2F", "+", "{id}", "a|b", "a%41{b}", "x|%7C^", "`"}
 
 func rInstancePath(r *rand.Rand, p string) string {
 	toks, _, _ := rNorm(p)
